@@ -68,7 +68,7 @@ func appCases(args []string) {
 			}
 		}
 		// rtcmfilter's other outputs (display log, record file), every combination of the two options
-		for k, dr := range [][2]bool{{true, true}, {true, false}, {false, true}, {true, true}, {true, true}, {true, true}} {
+		for k, dr := range [][2]bool{{true, true}, {true, false}, {false, true}, {true, true}, {true, true}, {true, false}, {true, true}, {true, false}} {
 			var in []byte
 			for j := 0; j < 6+rng.Intn(6); j++ {
 				in = append(in, tr.Frame(gen.RandomMSM(rng, gen.MSMTypes[rng.Intn(14)], 7, 0, 0, 0).Encode())...)
@@ -78,6 +78,10 @@ func appCases(args []string) {
 			}
 			if k == 3 {
 				in = append(in, gen.Frame(rng, 1005, 19, 0)...)
+			}
+			if k >= 4 {
+				// the last message is the most expensive one to display (64 signal cells)
+				in = append(in, tr.Frame(gen.RandomMSM(rng, []int{1077, 1097}[k%2], 3, 0, 0, 0).Encode())...)
 			}
 			id++
 			w.Emit(appCase{ID: id, Mode: "c11", In: tr.Ints(in), Hold: 0, Display: dr[0], Record: dr[1], Chunk: []int{0, 64, 1, 4096}[k%4], Seed: rng.Int63(), Cls: "c11-files"})
